@@ -50,6 +50,8 @@ class Model:
         # leaky_scope=True is the variant that skips the restoration on
         # the exceptional path (what the code at hand does).
         self.leaky_scope = leaky_scope
+        self.i18n_domain = None       # what i18n:domain / i18n:context of
+        self.i18n_context = None      # the enclosing elements say
         self.mlocals: dict[str, str] = {}
         self.mglobals: dict[str, str] = {}
         self.scope_relevant = False
@@ -157,7 +159,8 @@ class Model:
         n = pr.count.get("T", 0)
         pr.count["T"] = n + 1
         pr.history.append("T")
-        pr.tcalls.append(tcall_record(msgid, mapping))
+        pr.tcalls.append(tcall_record(msgid, mapping, self.i18n_domain,
+                                      self.i18n_context))
         do = pr.plan.get(("T", n)) or pr.plan.get(("T", "*"))
         if do is not None and do[0] == "raise":
             from .env import ZOO
@@ -346,12 +349,16 @@ class Model:
             # statements and all (only on-error stays around it); it runs
             # in a function of its own
             self.fn_depth += 1
+            saved = (self.i18n_domain, self.i18n_context)
+            self.i18n_domain, self.i18n_context = \
+                self.frames[-1].get("#i18n", saved)
             try:
                 # (through node(): a tal:on-error on the fill-slot element
                 # goes with its content to the place of the slot)
                 self.node(self.frames[-1][slot])
             finally:
                 self.fn_depth -= 1
+                self.i18n_domain, self.i18n_context = saved
             return
         bound: list = []
         lists: list = []
@@ -395,6 +402,13 @@ class Model:
                 self.mlocals[name] = old
 
     def _element_rest(self, n: dict, switch_state) -> None:
+        saved = (self.i18n_domain, self.i18n_context)
+        try:
+            self._element_rest2(n, switch_state)
+        finally:
+            self.i18n_domain, self.i18n_context = saved
+
+    def _element_rest2(self, n: dict, switch_state) -> None:
         if n["case"] is not None:
             # only ever generated directly under a switch element
             if switch_state["matched"]:
@@ -426,9 +440,25 @@ class Model:
         self.body(n)
 
     def body(self, n: dict) -> None:
+        # i18n:domain / i18n:context hold for the element's own output and
+        # everything inside (not for its define / condition / repeat)
+        saved = (self.i18n_domain, self.i18n_context)
+        if n.get("i18n_domain"):
+            self.i18n_domain = n["i18n_domain"]
+        if n.get("i18n_context"):
+            self.i18n_context = n["i18n_context"]
+        try:
+            self._body(n)
+        finally:
+            self.i18n_domain, self.i18n_context = saved
+
+    def _body(self, n: dict) -> None:
         if n.get("use_macro"):
             fills = {c["fill_slot"]: c for c in n["children"]
                      if c["t"] == "el" and c.get("fill_slot")}
+            # (slot content is rendered with the domain / context in force
+            # where the use-macro element stands, whatever the macro sets)
+            fills["#i18n"] = (self.i18n_domain, self.i18n_context)
             self.use_stack.append(n["eid"])
             self.frames.append(fills)
             self.fn_depth += 1
